@@ -5,6 +5,14 @@ import (
 )
 
 func IsHTTPResponseCode(s string) bool {
+	// Only the decimal digits are allowed: strconv.Atoi accepts a sign as well,
+	// but "+200" isn't a keyword.
+	for i := 0; i < len(s); i++ {
+		if s[i] < '0' || s[i] > '9' {
+			return false
+		}
+	}
+
 	code, err := strconv.Atoi(s)
 	if err != nil {
 		return false
